@@ -13,12 +13,12 @@ import RxModel.Conv.StatusTakeLemmas
   polls and flag queries in any order, post-terminal calls included.  No bound.
 
   The sources: `create` (the producer calls the `Subscriber` slot directly), `from_iter(1..=k)`
-  (subscribed by `sub`; calls `complete` unconditionally after its loop) and the hot `Subject`.
-  Over the hot `Subject` the code as it is VIOLATES the property: `Subject::error/complete` skip
-  subscribers whose observer `is_finished()`, `StatusObserver::is_finished` is the downstream's, so
-  once `take` has finished the status observer never sees the source's terminal: the flag stays 0 and
-  a parked `wait_for_end` sleeps for ever.  For `hot` the full statements are kept as `def … : Prop`,
-  refuted by concrete witnesses, and `_partial` theorems state exactly what the code does.
+  (subscribed by `sub`; calls `complete` unconditionally after its loop) and the hot `Subject`
+  (hands its terminal to every subscriber — since `fix: Subject::error/complete hand the terminal to
+  every subscriber`; before it, `Subject::error/complete` skipped subscribers whose observer
+  `is_finished()`, `StatusObserver::is_finished` is the downstream's, so once `take` had finished
+  the status observer never saw the source's terminal: the flag stayed 0 and a parked `wait_for_end`
+  slept for ever — the last section records that behaviour, `StatTW.hotEmitBefore`).
 -/
 namespace Rx.Conv
 open Ref
@@ -43,115 +43,51 @@ def StatusTakeWakeSpec (src : TSrc) : Prop :=
       (StatTW.run src c {} (es ++ [e])).1.wakes = (StatTW.run src c {} es).1.wakes + 1 ∧
         (StatTW.run src c {} (es ++ [e])).1.parked = false
 
-/-! ## Sources that hand their terminal to the status observer: full strength -/
+/-! ## Every source — `create`, `from_iter`, the hot `Subject` — at full strength -/
 
-theorem C14_status_take_flag (src : TSrc) (hs : src ≠ .hot) : StatusTakeFlagSpec src := by
+theorem C14_status_take_flag (src : TSrc) : StatusTakeFlagSpec src := by
   intro c es
-  rw [flag_run]
-  cases src with
-  | hot => exact absurd rfl hs
-  | create => rfl
-  | iter k => rfl
+  rw [flag_run]; rfl
 
 /-- The three queries answer from the source's terminal. -/
-theorem C14_status_take_query (src : TSrc) (hs : src ≠ .hot) (c : Cutter) (es : List TEv) :
+theorem C14_status_take_query (src : TSrc) (c : Cutter) (es : List TEv) :
     (StatTW.step src c (StatTW.run src c {} es).1 .qStatus).2 =
       .status (srcTerm src es).isSome
         (match srcTerm src es with | some (.error _) => false | some _ => true | none => false)
         (match srcTerm src es with | some (.error _) => true | _ => false) := by
-  have hf := C14_status_take_flag src hs c es
+  have hf := C14_status_take_flag src c es
   simp only [StatTW.step, StatTW.isClosed, StatTW.isCompleted, StatTW.errorOccur, hf]
   cases srcTerm src es with
   | none => simp [statFlag]
   | some t => cases t <;> simp [statFlag]
 
-theorem C14_status_take_ready (src : TSrc) (hs : src ≠ .hot) : StatusTakeReadySpec src := by
+theorem C14_status_take_ready (src : TSrc) : StatusTakeReadySpec src := by
   intro c es
-  have hf := C14_status_take_flag src hs c es
+  have hf := C14_status_take_flag src c es
   simp only [StatTW.step, StatTW.isClosed, hf, statFlag_ne_zero]
   cases (srcTerm src es).isSome <;> rfl
 
-theorem C14_status_take_wake (src : TSrc) (hs : src ≠ .hot) : StatusTakeWakeSpec src := by
+theorem C14_status_take_wake (src : TSrc) : StatusTakeWakeSpec src := by
   intro c es e hn ht hp
   rw [run_snoc]
   have hi := tinv_run src c es {} {} (TInv_init src c)
-  refine wake_step src c _ _ e hi hn ?_ hp (fun h => absurd h hs)
+  refine wake_step src c _ _ e hi hn ?_ hp
   simpa [srcTerm, thist_snoc] using ht
 
-/-! ## Every source: the status never reports a terminal that did not happen, nor the wrong one -/
-
+/-- In particular the status never reports a terminal that did not happen, nor the wrong one. -/
 theorem C14_status_take_sound (src : TSrc) (c : Cutter) (es : List TEv) :
     (StatTW.run src c {} es).1.flag = 0 ∨
-      (StatTW.run src c {} es).1.flag = statFlag (srcTerm src es) := by
-  rw [flag_run]
-  cases src with
-  | hot =>
-    simp only [expFlag]
-    split
-    · exact Or.inl rfl
-    · exact Or.inr rfl
-  | create => exact Or.inr rfl
-  | iter k => exact Or.inr rfl
+      (StatTW.run src c {} es).1.flag = statFlag (srcTerm src es) :=
+  Or.inr (C14_status_take_flag src c es)
 
-/-! ## The hot `Subject`: counterexamples and what does hold -/
-
-/-- `subject.complete_status().take(1)`: an item, then the subject completes — the flag stays 0. -/
-theorem C14_status_take_hot_flag_counterexample : ¬ StatusTakeFlagSpec .hot := by
-  intro h
-  exact absurd (h (.take 1) [.emit (.next (.int 1)), .emit .complete]) (by decide)
-
-theorem C14_status_take_hot_ready_counterexample : ¬ StatusTakeReadySpec .hot := by
-  intro h
-  exact absurd (h (.take 1) [.emit (.next (.int 1)), .emit (.error 7)]) (by decide)
-
-/-- The waiter parks after `take(1)` has finished; the subject's completion does not wake it. -/
-theorem C14_status_take_hot_wake_counterexample : ¬ StatusTakeWakeSpec .hot := by
-  intro h
-  have := h (.take 1) [.emit (.next (.int 1)), .poll] (.emit .complete) (by decide) (by decide) (by decide)
-  revert this
-  decide
-
-/-- Exactly what the code does over a hot `Subject`: the flag follows the source's terminal unless the
-    cutter had finished the downstream by itself on the items delivered before it — then it stays 0. -/
-theorem C14_status_take_hot_flag_partial (c : Cutter) (es : List TEv) :
-    (StatTW.run .hot c {} es).1.flag =
-      (if c.doneOn (srcItems .hot es) then 0 else statFlag (srcTerm .hot es)) := by
-  rw [flag_run]; rfl
-
-theorem C14_status_take_hot_ready_partial (c : Cutter) (es : List TEv) :
-    (StatTW.step .hot c (StatTW.run .hot c {} es).1 .poll).2 =
-      (if (srcTerm .hot es).isSome && !c.doneOn (srcItems .hot es) then .ready else .pending) := by
-  have hf := C14_status_take_hot_flag_partial c es
-  simp only [StatTW.step, StatTW.isClosed, hf]
-  cases c.doneOn (srcItems .hot es) with
-  | true => simp
-  | false =>
-    simp only [Bool.false_eq_true, if_false, statFlag_ne_zero, Bool.not_false, Bool.and_true]
-    cases (srcTerm .hot es).isSome <;> rfl
-
-theorem C14_status_take_hot_wake_partial (c : Cutter) (es : List TEv) (e : TEv)
-    (hn : srcTerm .hot es = none) (ht : srcTerm .hot (es ++ [e]) ≠ none)
-    (hp : (StatTW.run .hot c {} es).1.parked = true)
-    (hd : c.doneOn (srcItems .hot es) = false) :
-    (StatTW.run .hot c {} (es ++ [e])).1.wakes = (StatTW.run .hot c {} es).1.wakes + 1 ∧
-      (StatTW.run .hot c {} (es ++ [e])).1.parked = false := by
-  rw [run_snoc]
-  have hi := tinv_run .hot c es {} {} (TInv_init .hot c)
-  refine wake_step .hot c _ _ e hi hn ?_ hp (fun _ => hd)
-  simpa [srcTerm, thist_snoc] using ht
-
-/-- When has the cutter finished by itself?  `take n`: `n ≥ 1` and at least `n` items; `take 0` and no
-    cutter: never; `take_while p`: some item failed `p`. -/
+/-- When has the cutter finished the downstream by itself (the situations the statements above are
+    about)?  `take n`: `n ≥ 1` and at least `n` items; `take 0` and no cutter: never; `take_while p`:
+    some item failed `p`. -/
 theorem C14_cutter_done (xs : List Val) :
     Cutter.id.doneOn xs = false ∧
     (∀ n, (Cutter.take n).doneOn xs = (decide (0 < n) && decide (n ≤ xs.length))) ∧
     (∀ p incl, (Cutter.takeWhile p incl).doneOn xs = !xs.all p) :=
   ⟨Cutter.doneOn_id xs, fun n => Cutter.doneOn_take n xs, fun p incl => Cutter.doneOn_takeWhile p incl xs⟩
-
-/-- … so with no cutter or `take 0` the hot source satisfies the full statement. -/
-theorem C14_status_take_hot_never_done (c : Cutter) (hc : ∀ xs, c.doneOn xs = false) (es : List TEv) :
-    (StatTW.run .hot c {} es).1.flag = statFlag (srcTerm .hot es) := by
-  rw [C14_status_take_hot_flag_partial, hc]; rfl
 
 /-! ## Non-vacuity: the situations the theorems are about are reachable -/
 
@@ -179,15 +115,43 @@ example : (StatTW.run (.iter 3) (.take 0) {} [.sub, .qStatus]).2 =
 example : (StatTW.run .create (.takeWhile (fun v => v == .int 1) false) {}
       [.emit (.next (.int 1)), .emit (.next (.int 2)), .emit (.error 9), .qStatus]).2 =
     [.out [.next (.int 1)], .out [.complete], .out [], .status true false true] := by decide
--- hot: the defect
+-- hot + take(2): the downstream finishes at the 2nd item, the waiter parks, the subject completes
+-- later: the status observer is told, flag 1, the waiter woken, Ready
 example : (StatTW.run .hot (.take 2) {}
       [.emit (.next (.int 1)), .emit (.next (.int 2)), .poll, .emit .complete, .poll, .qStatus]).2 =
-    [.out [.next (.int 1)], .out [.next (.int 2), .complete], .pending, .out [], .pending,
-      .status false false false] := by decide
+    [.out [.next (.int 1)], .out [.next (.int 2), .complete], .pending, .out [], .ready,
+      .status true true false] := by decide
+example : (StatTW.run .hot (.take 2) {}
+      [.emit (.next (.int 1)), .emit (.next (.int 2)), .poll, .emit (.error 7)]).1.wakes = 1 := by decide
 example : srcTerm .hot [.emit (.next (.int 1)), .emit (.next (.int 2)), .poll, .emit .complete] =
     some .complete := by decide
--- hot, downstream still listening at the terminal: fine
+-- hot, downstream still listening at the terminal
 example : (StatTW.run .hot (.take 2) {} [.emit (.next (.int 1)), .poll, .emit (.error 3), .poll]).2 =
     [.out [.next (.int 1)], .pending, .out [.error 3], .ready] := by decide
+
+/-! ## The hot `Subject` BEFORE `fix: Subject::error/complete hand the terminal to every subscriber`
+
+  `StatTW.hotEmitBefore`: `subject.complete_status().take(1)`, an item, then the subject terminates —
+  the status observer was filtered out of the fan-out (`p_is_closed()`): the flag stayed 0, a waiter
+  that had parked after `take(1)` finished was not woken.  The same world under the code as it is
+  (`StatTW.hotEmit`) next to it.  (Recorded in known_findings.json as fixed:
+  `status-flag|convert|statustake/hot`, `pending-after-termination|…`, `lost-wakeup|convert|statuswait/hot`.) -/
+example :
+    let w := (StatTW.run .hot (.take 1) {} [.emit (.next (.int 1)), .poll]).1
+    w.parked = true ∧ (Cutter.take 1).isFinished w.cut = true ∧
+    ((StatTW.hotEmitBefore (.take 1) w .complete).1.flag = 0 ∧
+      (StatTW.hotEmitBefore (.take 1) w .complete).1.parked = true ∧
+      (StatTW.hotEmitBefore (.take 1) w .complete).1.wakes = 0) ∧
+    ((StatTW.hotEmit (.take 1) w .complete).1.flag = 1 ∧
+      (StatTW.hotEmit (.take 1) w .complete).1.parked = false ∧
+      (StatTW.hotEmit (.take 1) w .complete).1.wakes = 1) := by decide
+example :
+    let w := (StatTW.run .hot (.take 1) {} [.emit (.next (.int 1))]).1
+    (StatTW.hotEmitBefore (.take 1) w (.error 7)).1.flag = 0 ∧
+      (StatTW.hotEmit (.take 1) w (.error 7)).1.flag = -1 := by decide
+-- while the downstream is still listening the two agree
+example :
+    let w := (StatTW.run .hot (.take 2) {} [.emit (.next (.int 1)), .poll]).1
+    StatTW.hotEmitBefore (.take 2) w .complete = StatTW.hotEmit (.take 2) w .complete := by decide
 
 end Rx.Conv
